@@ -75,7 +75,7 @@ def gen_data(rng, tier):
             elif k in (2, 3): ins.append(Instruction('LOAD_CONST', Constant(rng.choice(consts)), line_number=line()))
             elif k == 4 and cells: ins.append(Instruction(rng.choice(FREEOPS), Cellvar(rng.choice(cells)), line_number=line()))
             elif k == 5 and frees: ins.append(Instruction(rng.choice(FREEOPS), Freevar(rng.choice(frees)), line_number=line()))
-            elif k == 6: ins.append(Instruction(rng.choice(RAWOPS), rng.choice([0, 1, 2, 255, 256, 65535, 65536]), line_number=line()))
+            elif k == 6: ins.append(Instruction(rng.choice(RAWOPS), rng.choice([0, 1, 2, 255, 256, 65535, 65536, 16777215, 16777216, 2 ** 31 - 1]), line_number=line()))
             elif k == 7 and JABS: ins.append(Instruction(rng.choice(JABS), Jump(rng.randrange(nblocks), False), line_number=line()))
             elif k == 8 and JREL and b + 1 < nblocks: ins.append(Instruction(rng.choice(JREL), Jump(rng.randrange(b + 1, nblocks), True), line_number=line()))
             else: ins.append(Instruction(rng.choice(NOARGOPS), line_number=line()))
